@@ -188,6 +188,11 @@ class DelayEval(object):
 
 def check(run):
     R = run
+    R.rule('C16.shared', 'objects created once per class / per function definition (class-level attributes, parameter '
+           'defaults) are only read: no buffer, validator, poll object, header list or option dict is shared between '
+           'connections', 1)
+    from .common import shared_state
+    shared_state(R, 'C16.shared')
     R.rule('C16.forever', 'normal exit of persist() is reachable only through a true test of a method of the '
                           'exit event; no return/raise statements; no break out of the connection loop', 3)
     R.rule('C16.passthrough', 'inside the connection loop the loop variable itself is yielded exactly once per '
